@@ -22,9 +22,9 @@ theorem resolveTy_typeReference_inv (sc : Scope) (u : UTy) (r : String) (tag : O
     subst h1 h2
     rfl
 
-variable (sc : Scope) (σ : Sigma) (ha : Agrees sc σ) (h64 : SigmaI64 σ)
+variable (sc : Scope) (σ : Sigma) (ha : Agrees sc σ)
 
-include ha h64 in
+include ha in
 mutual
 /-- every nested type resolves like its literal variant -/
 theorem resolveTy_subst : ∀ t : UTy, SafeTy sc σ t → sc.resolveTy (substTy σ t) = sc.resolveTy t
@@ -32,11 +32,11 @@ theorem resolveTy_subst : ∀ t : UTy, SafeTy sc σ t → sc.resolveTy (substTy 
   | .integer r cs, _ => by
     simp only [substTy, Scope.resolveTy, resolveRange_subst sc σ ha]
   | .string s c, _ => by
-    simp only [substTy, Scope.resolveTy, resolveSize_subst sc σ ha h64]
+    simp only [substTy, Scope.resolveTy, resolveSize_subst sc σ ha]
   | .octetString s, _ => by
-    simp only [substTy, Scope.resolveTy, resolveSize_subst sc σ ha h64]
+    simp only [substTy, Scope.resolveTy, resolveSize_subst sc σ ha]
   | .bitString s cs, _ => by
-    simp only [substTy, Scope.resolveTy, resolveSize_subst sc σ ha h64]
+    simp only [substTy, Scope.resolveTy, resolveSize_subst sc σ ha]
   | .null, _ => rfl
   | .optional t, hs => by
     simp only [SafeTy] at hs
@@ -46,13 +46,13 @@ theorem resolveTy_subst : ∀ t : UTy, SafeTy sc σ t → sc.resolveTy (substTy 
     simp only [substTy, Scope.resolveTy, resolveFields_subst fs hs]
   | .sequenceOf t s, hs => by
     simp only [SafeTy] at hs
-    simp only [substTy, Scope.resolveTy, resolveTy_subst t hs, resolveSize_subst sc σ ha h64]
+    simp only [substTy, Scope.resolveTy, resolveTy_subst t hs, resolveSize_subst sc σ ha]
   | .set fs e, hs => by
     simp only [SafeTy] at hs
     simp only [substTy, Scope.resolveTy, resolveFields_subst fs hs]
   | .setOf t s, hs => by
     simp only [SafeTy] at hs
-    simp only [substTy, Scope.resolveTy, resolveTy_subst t hs, resolveSize_subst sc σ ha h64]
+    simp only [substTy, Scope.resolveTy, resolveTy_subst t hs, resolveSize_subst sc σ ha]
   | .enumerated e, _ => rfl
   | .choice vs e, hs => by
     simp only [SafeTy] at hs
